@@ -11,6 +11,15 @@ fn main() {
 		std::process::exit(2);
 	}
 	let id = argv[1].clone();
+	if !id.starts_with('C') {
+		match vtv::mon::special(&id, &argv[2..]) {
+			Some(code) => std::process::exit(code),
+			None => {
+				eprintln!("unknown sub-command {id}");
+				std::process::exit(2);
+			}
+		}
+	}
 	let mut a = Args {
 		tier: Tier::parse(&std::env::var("VERIF_TIER").unwrap_or_default()),
 		seed: std::env::var("VERIF_SEED").ok().and_then(|s| s.parse().ok()).unwrap_or(1),
